@@ -194,7 +194,7 @@ def histOK (t : Token) : Bool :=
   | none => true
   | some ty => ty == .WORD || ty == .ASSIGNMENT_WORD || ty == .SEMICOLON || ty == .AND_AND
       || ty == .OR_OR || ty == .BAR || ty == .NEWLINE || ty == .AMPERSAND || ty == .GREATER
-      || ty == .LESS || ty == .GREATER_GREATER
+      || ty == .LESS || ty == .GREATER_GREATER || ty == .NUMBER
 
 theorem histOK_is {t : Token} (h : histOK t = true) :
     t.is .FOR = false ∧ t.is .CASE = false ∧ t.is .SELECT = false ∧ t.is .ARITH_FOR_EXPRS = false ∧
